@@ -513,7 +513,8 @@ def _crosscheck(task, res, seed, tier):
         return
     res["crosscheck_done"] = True
     obls = res["obligations"]
-    rnd = random.Random(seed * 7919 + hash(task.name) % 1000)
+    import zlib
+    rnd = random.Random(seed * 7919 + zlib.crc32(task.name.encode()) % 1000)     # NOT hash(): that varies per process
     n = task.crosscheck_samples * (5 if tier == "thorough" else 1)
     k = 0
     earlier = [e for e in res.pop("earlier_samples", []) if isinstance(e, dict) and e]   # run by the frame replay before
